@@ -224,6 +224,24 @@ theorem rcv_regression_fin_below_received :
       (fun r => (r.2, (r.1.rv 0).map fun x => (x.finalOffset, x.end_))) =
       some (.errT (.finalSize ""), some (none, 100)) := by decide
 
+/-- a duplicate RESET_STREAM (retransmission: same stream, same final size, the stream is already
+    reset) is a no-op: `Ok`, no state change, in every state and whatever the connection-level credit
+    is — in particular never FLOW_CONTROL_ERROR. (`validateReceiveId = none`: the id is one the peer may
+    use; it was when the first RESET_STREAM was accepted, and limits only grow.) -/
+theorem rcv_duplicate_reset_is_noop {s : State} {id code fo c : Nat} {rs : Recv}
+    (hv : s.validateReceiveId id = none) (hf : s.recv.find? id = some (some rs))
+    (hst : rs.state = .resetRecvd fo c) : s.receivedReset id code fo = some (s, .ok false) :=
+  receivedReset_duplicate hv hf hst
+
+/-- the duplicate-reset history (corpus/streams/dup-reset.ops): window 16 shrunk to 0 (16 of debt), a
+    RESET_STREAM with final size 9 (its credit pays debt), the same RESET_STREAM again: accepted, nothing
+    changes -/
+theorem rcv_regression_duplicate_reset :
+    ((State.new ⟨.server, 2, 2, 1000, 16, 16384⟩).bind fun s0 =>
+      (runR s0 0 16 [.params ⟨100, 100, 100, 2, 2, 1000⟩, .recvWindow 0, .rst 0 1 9]).bind fun r1 =>
+        (step r1.1 (.rst 0 1 9)).map fun r2 => (r2.2, decide (r2.1 = r1.1), r1.1.dataRecvd, r1.1.localMaxData)) =
+      some (.okFlag false, true, 9, 16) := by decide
+
 /-! ### peer-initiated streams stay within the advertised count -/
 
 /-- no frame of any type (STREAM, RESET_STREAM, STOP_SENDING, MAX_STREAM_DATA, ...) and no other
